@@ -39,5 +39,37 @@ for tm,name in [(1,"-1s"),(2,"0"),(3,"5ms"),(4,"2s")]:
 C["C19"]={"jobs":c19,"assumptions":["single goroutine","clock stub: each time.Now() returns an arbitrary wall-clock instant (symbolic seconds within 2^31 of a base, symbolic nanoseconds) not earlier than the previous reading",
    "timeouts enumerated: -1s, 0, 5ms, 2s (clock jobs) and 10^6 h","boundary instant t = created+timeout and expiry during a call are left free in both directions (the property does not fix them)"],
    "outside":["monotonic-clock readings (the stub returns wall-only instants)","Duration values not in the list","real sleeping; native replay cannot force clock readings, so clock-dependent counterexamples are confirmed in the engine's concrete mode"]}
+
+CLIENT_ASSUME=["the kernel is a harness-side simulation implementing NetlinkSendReceiver (no socket is opened); replies are handed out through the real parseNetlinkAuditMessage",
+  "request sequence numbers handed out by the simulated Send are never 0 (getReply treats 0 as 'unsolicited'; the real client reaches 0 only on its 2^32-th send)",
+  "kernel errno in [0,4095] (MAX_ERRNO)","time.Sleep is a no-op stub"]
+METHODS=["GetStatus","GetRules","AddRule","DeleteRule","DeleteRules","SetEnabled","SetImmutable","SetFailure","SetRateLimit","SetBacklogLimit","SetBacklogWaitTime","SetPID"]
+c08=[]
+for i,m in enumerate(METHODS):
+    if m=="DeleteRules":
+        c08.append(job("cmd-"+m,".","VH_ClientCmd",["C08/"],{"method":i,"unsol":1,"trans":0,"bad":0},QO,
+           bounds="DeleteRules: GetRules (0..2 rules) + one DeleteRule each; per request 0..1 unsolicited records, ACK with symbolic errno"))
+        c08.append(job("cmd1-"+m,".","VH_ClientCmd",["C08/"],{"method":i,"unsol":1,"trans":1,"bad":1},T,bounds="DeleteRules with adversarial replies, 0..1 unsolicited, 0..1 transient per request"))
+        continue
+    c08.append(job("cmd-"+m,".","VH_ClientCmd",["C08/"],{"method":i,"unsol":1,"trans":1,"bad":1},Q,
+       bounds=f"{m}: symbolic first sequence number, 0..1 unsolicited records (symbolic type/payload), 0..1 transient failures (EINTR|EAGAIN), reply in {{ACK with symbolic errno<=4095, foreign sequence, wrong type, short payload}}, status 32..44 symbolic bytes, 0..2 rules"))
+    c08.append(job("cmd2-"+m,".","VH_ClientCmd",["C08/"],{"method":i,"unsol":2,"trans":2,"bad":1},T,
+       bounds=f"{m}: as quick with 0..2 unsolicited records and 0..2 transient failures"))
+for a,b in [(5,0),(0,1),(2,3),(8,5)]:
+    c08.append(job(f"seq-{METHODS[a]}-{METHODS[b]}",".","VH_ClientCmd",["C08/"],{"method":a,"method2":b,"unsol":1,"trans":0,"bad":1},T,
+       bounds=f"{METHODS[a]} then {METHODS[b]} (kernel queue drained in between)"))
+for pat,pn in [(0,"eintr"),(1,"eagain"),(2,"alternating")]:
+    for jj in ([0,9,10] if pat==0 else [9,10]):
+        c08.append(job(f"retry-{pn}-{jj}",".","VH_ClientRetry",["C08/"],{"j":jj,"pattern":pat},Q,bounds=f"exactly {jj} consecutive transient failures ({pn}) then the ACK with symbolic errno"))
+C["C08"]={"jobs":c08,"assumptions":CLIENT_ASSUME,"outside":["the real kernel and socket","more than 2 unsolicited records per wait","Receive returning several messages at once","rule payloads longer than 3-4 bytes (content is only copied)"]}
+C["C16"]={"jobs":[job("setters",".","VH_ClientSetters",["C16/"],{},Q,bounds="7 setters x both wait modes with full-range symbolic arguments (uint32/int32/bool/FailureMode), GetStatus request"),
+   job("constants",".","VH_Constants",["C16/"],{},Q,bounds="closed terms: exported constants against UAPI values (linux/audit.h)"),
+   job("wire-0-64",".","VH_StatusWire",["C16/"],{"maxlen":64},Q,bounds="FromWireFormat: every buffer length 0..64 with symbolic contents, receiver pre-filled with symbolic garbage"),
+   job("wire-100",".","VH_StatusWire",["C16/"],{"maxlen":0,"long":1},Q,bounds="FromWireFormat: buffer length 100")],
+   "assumptions":CLIENT_ASSUME+["UAPI constants transcribed from /usr/include/linux/audit.h of this image (see harness constants vUAPI_*)"],"outside":["the live kernel"]}
+C["C17"]={"jobs":[job("history-k3",".","VH_ClientHistory",["C17/"],{"k":3},QO,bounds="histories of 3 operations from {setter NoWait, SetPID NoWait, setter WaitForReply, WaitForPendingACKs, GetRules, Close}, kernel errno per request symbolic"),
+   job("history-k4",".","VH_ClientHistory",["C17/"],{"k":4},T,bounds="histories of 4 operations"),job("history-k5",".","VH_ClientHistory",["C17/"],{"k":5},T,bounds="histories of 5 operations")],
+   "assumptions":CLIENT_ASSUME+["domain: reply-waiting commands (WaitForReply setters, GetRules) are issued only when no NoWait ACK is outstanding","the simulated kernel reuses one receive buffer"],
+   "outside":["concurrent Close (engine threads; see C17 concurrent job when registered)","the live kernel"]}
 json.dump(C,open('/verif/checks.json','w'),indent=1)
 print({k:len(v["jobs"]) for k,v in C.items()})
